@@ -316,6 +316,11 @@ class StmtMixin:
                 raise Unsupported('symbolic index into concrete list')
             base.items[n] = v
             return
+        if isinstance(base, SRef):
+            decl = self.world.classes.get(base.shape.cls)
+            if decl is not None and '__setitem__' in decl.methods:
+                decl.methods['__setitem__'](self, [base, idx, v], {})
+                return
         raise Unsupported('item assignment on %r' % (base,))
 
     def setslice(self, base, lo, hi, v):
